@@ -372,6 +372,7 @@ def evaluate(case):
             res.fail('C20:list-raises', "list() raised %r" % (exc,))
             return res
     listing = out.getvalue().splitlines()
+    all_ids = {o._sched_id for o, _ in registry.values() if o is not top}
     for path, (obj, spec) in registry.items():
         if obj is top:
             continue
@@ -391,7 +392,8 @@ def evaluate(case):
         at = listing.index(lines[0])
         entry = [lines[0]]
         for l in listing[at + 1:]:
-            if re.match(r'^\d+ ', l):
+            head = l.split(' ', 1)[0]
+            if head in all_ids:
                 break
             entry.append(l)
         entry = '\n'.join(entry)
